@@ -590,5 +590,82 @@ pub fn c16(rep: &mut Rep, seed: u64) {
         }
         if rep.evals % 301 == 2 && rep.samples.len() < 4 { rep.samples.push(json!({"components": text})); }
     }
+    // ---- metadata accessors, factor files and the small value parsers
+    let metas = ["#META CTE_RED1: 0.5", "#META CTE_RED1: NaN", "#META CTE_RED1: 0.1, 0.2", "#META CTE_RED1: 0.1, 0.2, 0.3, 0.4", "#META CTE_RED2: ", "#META CTE_RED2: a, b, c", "#META CTE_RED1: { ren: 1 }",
+        "#META CTE_AREAREF: ", "#META CTE_AREAREF: -0", "#META CTE_KEXP: 1e400", "#META CTE_LOCALIZACION: ", "#META : x", "#META", "#CTE_RED1 0.5"];
+    for m in metas {
+        rep.evals += 1;
+        let text = format!("{}\n1,CONSUMO,CAL,RED1,10\n1,CONSUMO,ACS,RED2,5", m);
+        let t2 = text.clone();
+        let r = panic::catch_unwind(move || {
+            if let Ok(c) = t2.parse::<Components>() {
+                let _ = (c.get_meta_rennren("CTE_RED1"), c.get_meta_rennren("CTE_RED2"), c.get_meta_f32("CTE_AREAREF"), c.get_meta_f32("CTE_KEXP"), c.get_meta("CTE_LOCALIZACION"), c.has_meta_value("CTE_LOCALIZACION", "PENINSULA"));
+                let user = UserWF { red1: c.get_meta_rennren("CTE_RED1"), red2: c.get_meta_rennren("CTE_RED2") };
+                if let Ok(w) = cte::wfactors_from_loc("PENINSULA", &cte::CTE_LOCWF_RITE2014, user, cte::CTE_USERWF) { let _ = energy_performance(&c, &w, 0.3, 1.0, true); }
+            }
+        });
+        if let Err(e) = r {
+            let msg = e.downcast_ref::<String>().cloned().or_else(|| e.downcast_ref::<&str>().map(|s| s.to_string())).unwrap_or_else(|| "panic".into());
+            rep.fail("C16.no_panic", &text, format!("the library panicked on a metadata line: {}", msg));
+        }
+    }
+    let soups = ["", "0.5", "NaN", "1,2", "1,2,3", "1,2,3,4", " , , ", "a,b,c", "1e400,0,0", "-1,-2,-3", "{ ren: 1.0, nren: 2.0, co2: 3.0 }", "{ ren: x }", "ñ", "\u{feff}1,2,3", "ELECTRICIDAD", "electricidad", "EL_INSITU", "A_RED", "B", "CAL", "COGEN", "#"];
+    for t in soups {
+        rep.evals += 1;
+        let t2 = t.to_string();
+        let r = panic::catch_unwind(move || {
+            let _ = t2.parse::<RenNrenCo2>(); let _ = t2.parse::<Carrier>(); let _ = t2.parse::<Service>(); let _ = t2.parse::<ProdSource>(); let _ = t2.parse::<Source>(); let _ = t2.parse::<Dest>(); let _ = t2.parse::<Step>();
+            let _ = t2.parse::<Factor>(); let _ = t2.parse::<EUsed>(); let _ = t2.parse::<EProd>(); let _ = t2.parse::<EAux>(); let _ = t2.parse::<EOut>();
+        });
+        if r.is_err() { rep.fail("C16.no_panic", t, "a value parser (FromStr) panicked".into()); }
+        // metadata lines as the file parsers hand them to Meta::from_str (always with the `#META` / `#CTE_` prefix; the bare
+        // `Meta::from_str` slices off five bytes unconditionally and is not a text "given as components or factors file")
+        for prefix in ["#META", "#META ", "#CTE_", "#META\u{f1}"] {
+            let t3 = format!("{}{}", prefix, t);
+            if panic::catch_unwind(move || { let _ = t3.parse::<Meta>(); }).is_err() { rep.fail("C16.no_panic", t, format!("Meta::from_str panicked on a line starting with {}", prefix)); }
+        }
+    }
+    let mut fcorpus: Vec<String> = vec![];
+    for f in ["factores_paso_PENINSULA_20140203.csv", "factores_paso_test.csv"] { if let Ok(t) = std::fs::read_to_string(format!("/repo/test_data/{}", f)) { fcorpus.push(t); } }
+    fcorpus.push("ELECTRICIDAD, RED, SUMINISTRO, A, 0.414, 1.954, 0.331\nGASNATURAL, RED, SUMINISTRO, A, 0.005, 1.190, 0.252\nELECTRICIDAD, COGEN, A_RED, A, 0.0, 2.5, 0.3\n#META CTE_FUENTE: x".into());
+    let fbase = fcorpus.clone();
+    let frepl = ["", "RED", "INSITU", "COGEN", "A_NEPB", "B", "x", "NaN", "1e40", "-1", "ELECTRICIDAD", "RED1"];
+    for t in &fbase {
+        let lines: Vec<&str> = t.lines().filter(|l| !l.trim().is_empty()).collect();
+        for _ in 0..crate::preds::scale() {
+            let mut l: Vec<String> = lines.iter().map(|s| s.to_string()).collect();
+            let i = (rng.next() % l.len() as u64) as usize;
+            match rng.next() % 5 {
+                0 => { l.remove(i); }
+                1 => { let x = l[i].clone(); l.insert(i, x); }
+                _ => {
+                    let mut toks: Vec<String> = l[i].split(',').map(|s| s.to_string()).collect();
+                    let j = (rng.next() % toks.len() as u64) as usize;
+                    match rng.next() % 3 { 0 => { toks.remove(j); } 1 => { let x = toks[j].clone(); toks.insert(j, x); } _ => { toks[j] = rng.pick(&frepl).to_string(); } }
+                    l[i] = toks.join(",");
+                }
+            }
+            fcorpus.push(l.join("\n"));
+        }
+    }
+    let probe: Components = "1,CONSUMO,CAL,ELECTRICIDAD,10,5\n1,PRODUCCION,EL_INSITU,20,0\n2,CONSUMO,ACS,GASNATURAL,5,5\n3,CONSUMO,COGEN,GASNATURAL,9,9\n3,PRODUCCION,EL_COGEN,3,3\n4,CONSUMO,NEPB,ELECTRICIDAD,1,1".parse().expect("probe building");
+    for text in &fcorpus {
+        rep.evals += 1;
+        let (t2, c2) = (text.clone(), probe.clone());
+        let r = panic::catch_unwind(move || {
+            let _ = t2.parse::<Factors>();
+            for user in [UserWF { red1: None, red2: None }, UserWF { red1: Some(RenNrenCo2::new(0.1, 0.9, 0.2)), red2: Some(RenNrenCo2::new(0.0, 1.3, 0.3)) }] {
+                if let Ok(w) = cte::wfactors_from_str(&t2, user, cte::CTE_USERWF) {
+                    let _ = energy_performance(&c2, &w, 0.5, 1.0, true);
+                    let _ = energy_performance(&c2, &w.clone().strip(&c2), 1.0, 1.0, false);
+                    let _ = w.to_string();
+                }
+            }
+        });
+        if let Err(e) = r {
+            let msg = e.downcast_ref::<String>().cloned().or_else(|| e.downcast_ref::<&str>().map(|s| s.to_string())).unwrap_or_else(|| "panic".into());
+            rep.fail("C16.no_panic", text, format!("the library panicked on a factors file: {}", msg));
+        }
+    }
     panic::set_hook(prev);
 }
